@@ -217,7 +217,7 @@ def build():
     u.item(C, 'struct', 'CompressionSettings', derives='Clone, Copy')
     u.raw(SPEC)
     u._emit('impl CompressionEncoding {'); u._open_header = 'impl CompressionEncoding {'
-    u.fn(C, 'as_str', within='impl CompressionEncoding', ensures=[Clause('name', 'r@ == enc_name(self)')])
+    u.fn(C, 'as_str', within='impl CompressionEncoding', ensures=[Clause('name', 'r@ == enc_name(self)', ['C05', 'C03'])])   # callee of into_header_value (C03)
     u.fn(C, 'from_accept_encoding_header', within='impl CompressionEncoding',
          closures={0: dict(params='value: &str', ret='(o: Option<CompressionEncoding>)',
                            ensures=['o matches Some(e) ==> value@ == enc_name(e) && enabled_encodings.enabled(e)'])},
